@@ -28,28 +28,32 @@ REF_DT_DYE = {"diffuse": 0x1, "specular": 0x2, "emissive": 0x4, "scalar3": 0x8, 
               "sheen_aperture": 0x100, "anisotropy": 0x200, "sphere_map_index": 0x400, "sphere_map_mask": 0x800}
 
 
-def calc_masks(item):
-    """field -> ('mask', m) | ('shift', s, m) from br(calc = ...) expressions of a dye row."""
+def calc_masks(prog, path):
+    """field -> ('mask', m) | ('shift', s, m) of a dye row, read off the MIR of its derived reader (the expressions
+    written in #[br(calc = ..)] are compiled into it; helpers and named constants are inlined / folded first)."""
+    from ..bits import bitfield, word_of
+
     out = {}
-    for f in item["fields"]:
-        for d in W.directives(f["attrs"]):
-            if d.name != "calc":
+    words = set()
+    for name in (f"<{path} as binrw::BinRead>::read_options::{{closure#0}}", f"<{path} as binrw::BinRead>::read_options"):
+        b = prog.body(name)
+        if not b:
+            continue
+        adt = prog.adts.get(path)
+        names = [f["name"] for f in adt["variants"][0]["fields"]] if adt else []
+        for p in Explorer(b, max_paths=4000).explore():
+            if p.end != "return":
                 continue
-            txt = d.text.replace(" ", "")
-            m = re.match(r"^\(data&(0x[0-9a-fA-F]+|\d+)\)!=0$", txt)
-            if m:
-                out[f["name"]] = ("mask", int(m.group(1), 0))
-                continue
-            m = re.match(r"^data>>(\d+)$", txt)
-            if m:
-                out[f["name"]] = ("shift", int(m.group(1)), None)
-                continue
-            m = re.match(r"^\(\(data>>(\d+)\)&(0x[0-9a-fA-F]+|\d+)\)as\w+$", txt)
-            if m:
-                out[f["name"]] = ("shift", int(m.group(1)), int(m.group(2), 0))
-                continue
-            out[f["name"]] = ("?", txt)
-    return out
+            for t in walk(p.env.local(0)):
+                if isinstance(t, tuple) and t[0] == "agg" and t[1] == "adt" and t[2].startswith(path + "::") and len(t[3]) == len(names):
+                    for nm, e in zip(names, t[3]):
+                        bf = bitfield(N(e))
+                        out[nm] = bf
+                        w = word_of(N(e))
+                        if bf[0] != "?" and w is not None:
+                            words.add(repr(w))
+                    return out, words
+    return None, words
 
 
 def _is_get(callee):
@@ -136,7 +140,11 @@ def run(ctx):
         if not it:
             ctx.fail_closed("MASKS", f"{path} not found")
             continue
-        got = calc_masks(it)
+        got, words = calc_masks(prog, path)
+        if got is None:
+            ctx.fail_closed("MASKS", f"{path}: no row literal found in its derived reader")
+            continue
+        ctx.ob("MASKS", f"{path}|one-word", len(words) == 1, f"{path}: all bit fields are decoded from one stored word ({len(words)} distinct source expressions)", it["file"], it["line"], trivial=True)
         for fld, m in ref.items():
             g = got.get(fld)
             ctx.ob("MASKS", f"{path}.{fld}", g == ("mask", m), f"{path}.{fld} is decoded as {g}; reference bit {m:#x}", it["file"], it["line"], sample=(fld == "diffuse"))
@@ -156,10 +164,26 @@ def run(ctx):
         ctx.ob("MASKS", f"{path}|no-extra", not extra, f"{path}: decoded fields without a reference: {sorted(extra)}", it["file"], it["line"], trivial=True)
     md = wm.items.by_path.get("mtrl::MaterialData")
     if md:
-        calcs = {f["name"]: d.text.replace(" ", "") for f in md["fields"] for d in W.directives(f["attrs"]) if d.name == "calc" and "r" in d.side}
-        want = {"has_table": "(table_flags&0x4)!=0", "has_dye_table": "(table_flags&0x8)!=0", "table_width_log": "((table_flags>>4)&0xF)asu8", "table_height_log": "((table_flags>>8)&0xF)asu8", "table_dimension_logs": "(table_flags>>4)asu8"}
+        # the flag word's fields, read off the MIR of the derived reader (locals carry the field names)
+        from ..bits import bitfield
+
+        want = {"has_table": ("mask", 0x4), "has_dye_table": ("mask", 0x8), "table_width_log": ("shift", 4, 0xF), "table_height_log": ("shift", 8, 0xF), "table_dimension_logs": ("shift", 4, None)}
+        mb_ = prog.body("<mtrl::MaterialData as binrw::BinRead>::read_options::{closure#0}")
+        calcs = {}
+        if mb_:
+            by_name = {nm: l for l, nm in mb_.local_names().items() if nm in want}
+            for p in Explorer(mb_, max_paths=6000).explore():
+                if p.end != "return":
+                    continue
+                for nm, l in by_name.items():
+                    if nm not in calcs and l in p.env.loc:
+                        bf = bitfield(N(p.env.local(l)))
+                        if bf[0] != "?":
+                            calcs[nm] = bf
+                if len(calcs) == len(want):
+                    break
         for fld, w_ in want.items():
-            ctx.ob("MASKS", f"MaterialData.{fld}", calcs.get(fld) == w_, f"MaterialData.{fld} = {calcs.get(fld)}; reference {w_}", md["file"], md["line"])
+            ctx.ob("MASKS", f"MaterialData.{fld}", calcs.get(fld) == w_, f"MaterialData.{fld} is decoded as {calcs.get(fld)}; reference {w_}", md["file"], md["line"])
         conds = {f["name"]: d.text.replace(" ", "") for f in md["fields"] for d in W.directives(f["attrs"]) if d.name == "if"}
         ctx.ob("MASKS", "MaterialData.color_table|presence", conds.get("color_table") == "has_table" and conds.get("color_dye_table") == "has_dye_table", f"table presence conditions {conds}", md["file"], md["line"])
     pb = prog.body("mtrl::parse_color_table")
